@@ -442,3 +442,28 @@ Proof.
   exists m'. split; [assumption|]. unfold accepts. rewrite S.
   destruct (Z.leb_spec (limit + d) limit), (Z.leb_spec d 0); (reflexivity || lia).
 Qed.
+
+(* ---------- the runner's own path (kind c19.wiring) ---------- *)
+(* what the model predicts for a suite of single size directives: each request gets exactly the
+   size limit + off, and is accepted iff off <= 0; the prediction fails (suite rejected) only for
+   a size that no padding reaches *)
+Lemma wiring_one_proof : forall limit off r,
+  wiring_one limit off = Some r -> r = L [I limit; I (limit + off); sx_bool (off <=? 0)].
+Proof.
+  intros limit off r. unfold wiring_one.
+  destruct (expand 0 0 (limit + off)) eqn:E; try discriminate.
+  intros H. injection H as <-.
+  apply expand_exact_proof in E.
+  change (field_size n) with (msg_size 0 n). rewrite !E. unfold accepts.
+  replace (limit + off <=? limit) with (off <=? 0); [reflexivity|].
+  destruct (Z.leb_spec off 0), (Z.leb_spec (limit + off) limit); try reflexivity; lia.
+Qed.
+
+Lemma wiring_none_proof : forall limit off,
+  0 <= limit + off <= max_uint32 -> wiring_one limit off = None -> ~ reachable 0 (limit + off).
+Proof.
+  intros limit off Hr. unfold wiring_one.
+  destruct (expand 0 0 (limit + off)) eqn:E; try discriminate; intros _.
+  - eapply expand_complete_proof; [| |apply (proj2 Hr)|exact E]; unfold go_int_max; lia.
+  - exfalso. eapply expand_total_proof; [|exact E]. lia.
+Qed.
